@@ -336,12 +336,16 @@ def check_document(rep, p, counters, twice):
 CAP = {"quick": 300, "thorough": 2500}  # documents built per family (all of them when fewer are emitted)
 
 
+# the composition family needs cooperating choices (override x material x modification x axial index): few documents, all built
+UNCAPPED_IN_QUICK = ("comp",)
+
+
 def sample_documents(docs, cap, rng):
     """at most `cap` documents per family, spread over (last edit, verdict, kind of inconsistency) classes; seeded, order-independent of TLC."""
     out = []
     for fam in FAMILIES:
         mine = [p for p in docs if p["fam"] == fam]
-        if len(mine) <= cap:
+        if len(mine) <= cap or (fam in UNCAPPED_IN_QUICK and len(mine) <= 1000):
             out += mine
             continue
         classes = {}
@@ -536,6 +540,12 @@ def selftest():
         with P(Component, "_checkNegativeArea", no_negative_area_check), P(Component, "_checkNegativeVolume", no_negative_area_check):
             yield
 
+    @contextlib.contextmanager
+    def writer_drops_and_no_readback():
+        with P(asciimaps.AsciiMap, "_removeTrailingPlaceholders", staticmethod(trailing_placeholders_kept_off_by_one)), \
+                P(asciimaps.AsciiMap, "_checkAsciiReadsBackToData", lambda self: None):
+            yield
+
     def tips_write_shifted(self, columnNum, lineNum):
         iBase, jBase = self._getIJBaseByAsciiLine(lineNum)
         return self._getIJFromColAndBase(columnNum + (1 if lineNum == 1 else 0), iBase, jBase)
@@ -675,7 +685,7 @@ def selftest():
         ("a linked mult is ignored (mult 1)", lambda: P(CB, "_conformKwargs", conform_ignores_mult_link)),
         ("negative area / volume (overlap) checks disabled", overlap_checks_off),
         ("corners-up map WRITER: second row shifted one column", lambda: P(asciimaps.AsciiMapHexFullTipsUp, "_getIJFromColRow", tips_write_shifted)),
-        ("map writer drops the last entry after an inner placeholder", lambda: P(asciimaps.AsciiMap, "_removeTrailingPlaceholders", staticmethod(trailing_placeholders_kept_off_by_one))),
+        ("map writer drops the last entry after an inner placeholder, read-back check off", writer_drops_and_no_readback),
         ("seed 2: negative cold area refused for solids only (fluid bond between overlapping solids)", lambda: P(Component, "_checkNegativeArea", negative_area_only_for_solids)),
         ("seed 5: adjustMassFrac zero-balance branch, assignments swapped", swapped_zero_balance_branch),
         ("block heights applied in reversed order", lambda: P(AB, "_createBlock", create_block_heights_reversed)),
